@@ -292,6 +292,20 @@ func (ctx *EvalCtx) ident(name string) CV {
 					return CV{ctx.frame.val(p), p.Type()}
 				}
 			}
+			// the same loop written as 'for i := 0; i < n; i++': the index of the last element done is i-1
+			if li := ctx.frame.loops[ctx.block]; li != nil {
+				var found *ssa.Phi
+				n := 0
+				for _, in := range ctx.block.Instrs {
+					if p, ok := in.(*ssa.Phi); ok && countsUp(p, li) && phiStartsAtZero(p, li) {
+						found = p
+						n++
+					}
+				}
+				if n == 1 {
+					return CV{f.Sub(ctx.frame.val(found), f.Int(1)), found.Type()}
+				}
+			}
 		}
 		ctx.fail("rangeidx used outside a range loop header")
 	}
@@ -825,8 +839,6 @@ func (ctx *EvalCtx) callExpr(x *ast.CallExpr) CV {
 				ctx.fail("has() needs a map")
 			}
 			return CV{f.And(f.Neq(m.t, f.Int(0)), ex.mapHas(ctx.state(), m.t, k.t, mt)), nil}
-		case "visited": // visited(loopIter, k) – not yet
-			ctx.fail("visited() not supported")
 		case "isnil":
 			a := ctx.eval(x.Args[0])
 			if a.t.sort == Sort("Slice") {
